@@ -11,8 +11,8 @@ import (
 	"github.com/attestantio/go-eth2-client/spec/phase0"
 	"github.com/attestantio/vouch/services/attester"
 
-	. "verifharness/common"
 	"verifharness/attenv"
+	. "verifharness/common"
 )
 
 // DutyIn is one attester duty as the beacon node reports it.
